@@ -115,7 +115,7 @@ META["C06"] = {
     "components": {"real": MACHINE_REAL, "stub": []},
     "assumptions": [
         "the reference ledger evaluates a condition on the machine view at the subscribing step and on the machine time at the end of every later accepted, non-check transition (when the machine processes subscriptions)",
-        "no handler faults in this family; WhenQueueEnds is judged at quiescence only",
+        "no handler faults in this family; WhenQueueEnds is judged at quiescence only", "handler-less runs park the processing goroutine in the tracer's TransitionStart (between the start of a transition and the application of its target); a WhenTime subscriber may be preempted right after it released a read lock inside the call; a WhenArgs subscription made while the state was inactive must be closed by an activation that follows, also by the transition already running",
     ],
     "probes": ["subscribe-during-transition", "context-canceled", "schema-grown"],
     "level_text": "seeded search over subscriber/mutator/nemesis interleavings; before every transition and at quiescence each channel is compared with a subscription ledger: closed-but-never-justified is a spurious wake-up, justified-but-open a lost one; state contexts are canceled iff the tick changed",
@@ -157,7 +157,7 @@ META["C12"] = {
     "components": {"real": MACHINE_REAL + ["pkg/rpc NetworkMachine (clock updates, getters, subscriptions)"], "stub": ["no RPC connection behind the network machine (conn = nil; programs avoid remote mutations' results)"]},
     "assumptions": [
         "the race detector keeps a bounded access history per word: two accesses far apart in one run can be missed, mitigated by many short runs",
-        "Dispose/DisposeForce/Fork/PoolFork are left out of the programs; methods taking the schema write lock run only when handlers do not park; the harness handlers are bound three times under known ids so that programs detach and re-bind real bindings while transitions run, and in a third of the runs a final handler panics every k-th call (not during Exception handling) so that the machine repairs its state while the other tasks read it",
+        "Dispose/DisposeForce/Fork/PoolFork are left out of the programs; methods taking the schema write lock run only when handlers do not park; in a third of the runs the machine logs everything (to a logger that discards it), programs contain blocking checks (amhelp.CantAdd), the mirror is fed clocks whose queue ticks sometimes start over and carries a tracer that parks inside clock updates; the harness handlers are bound three times under known ids so that programs detach and re-bind real bindings while transitions run, and in a third of the runs a final handler panics every k-th call (not during Exception handling) so that the machine repairs its state while the other tasks read it",
         "nil contexts and nil events are C20's domain, not used here",
     ],
     "probes": [],
@@ -207,7 +207,7 @@ META["C09"] = {
         "liveness is judged 90 s of fake time after the last fault with the links healed; one explicit client Sync() is allowed when pushes are disabled",
     ],
     "probes": ["fault-cut", "fault-stall", "fault-dialfail", "fault-time-jump", "stale-before-final-sync"],
-    "level_text": "seeded search over source histories, sync configurations, push/reply interleavings and connection faults; the handshake hands over the source's clock exactly, convergence after healing, every clock the mirror ever exposes is a source snapshot reached in source order, remote mutation results equal the source's and are visible locally on return, nothing blocks for ever",
+    "level_text": "seeded search over source histories, sync configurations, push/reply interleavings and connection faults; the handshake hands over the source's clock exactly, the mirror's cached activity agrees with its ticks, convergence after healing, every clock the mirror ever exposes is a source snapshot reached in source order, remote mutation results equal the source's and are visible locally on return, nothing blocks for ever",
     "level_note": "trusts testing/synctest, the simulated network (ordered streams, deadlines on the fake clock), rpc2/gob run real",
 }
 META["C10"] = {
